@@ -642,6 +642,12 @@ def refine_droplet(
         vmax = float(np.max(data_mask)) if data_mask.size > 0 else 1.0
     vrng = vmax - vmin
 
+    # measure intensities in units of the intensity range, so that the (absolute)
+    # tolerances of the optimizer do not depend on the scale of the image
+    scale = abs(vrng) if vrng != 0 and np.isfinite(vrng) else 1.0
+    data_mask = data_mask / scale
+    vmin, vmax, vrng = vmin / scale, vmax / scale, vrng / scale
+
     if adjust_values:
         # fit intensities in addition to all droplet parameters
 
